@@ -623,6 +623,8 @@ impl Range {
                                               mut is_opening_boundary_read: bool)
                                               -> Result<Vec<ContentRange>, String> {
 
+        // one loop iteration per part (or skipped line): a call per part needs a stack frame per part
+        loop {
         let mut buffer = vec![];
         let boxed_read = cursor.read_until(b'\n', &mut buffer);
         if boxed_read.is_err() {
@@ -797,19 +799,7 @@ impl Range {
             content_range_list.push(content_range);
         }
 
-        let boxed_result = Range::parse_multipart_body_with_boundary(
-            cursor,
-            content_range_list,
-            boundary,
-            total_bytes,
-            bytes_read,
-            is_opening_boundary_read);
-        return if boxed_result.is_ok() {
-            Ok(boxed_result.unwrap())
-        } else {
-            let error = boxed_result.err().unwrap();
-            Err(error)
-        }
+        } // next part, with the same cursor, content_range_list, bytes_read and is_opening_boundary_read
 
     }
 
